@@ -15,6 +15,7 @@ func init() {
 	vpRegister("c06_signsteps", vpH_c06_signsteps)
 	vpRegister("c06_envnames", vpH_c06_envnames)
 	vpRegister("c06_resign", vpH_c06_resign)
+	vpRegister("c06_rotation", vpH_c06_rotation)
 }
 
 // Pipeline variable names are arbitrary strings: the env:: namespacing must
@@ -309,4 +310,40 @@ func vpH_c06_resign() {
 		vpAssert(Verify(ctx, sig, s, &CommandStepWithInvariants{CommandStep: *inner, RepositoryURL: repo2}, WithEnv(m)) != nil, "a removed pipeline variable is refused after re-signing")
 	}
 	vpAssert(Verify(ctx, sig, s, &CommandStepWithInvariants{CommandStep: *inner, RepositoryURL: repo2 + "x"}, WithEnv(mk())) != nil, "another repository is refused after re-signing")
+}
+
+// Signing depends on the key that is given, not on what was signed before in
+// the same process: after a key rotation that kept the key id, identical steps
+// signed with the new key verify under the new key and not under the old one.
+func vpH_c06_rotation() {
+	ctx := context.Background()
+	alg := "EdDSA"
+	if vpBool() {
+		alg = "ES512"
+	}
+	kid := "k" + vpStrUpTo(1, "a-b")
+	k1, k2 := vpSigKeyKid(alg, 1, kid), vpSigKeyKid(alg, 2, kid)
+	cmd := vpStr(1, "a-b")
+	penv := map[string]string{}
+	if vpBool() {
+		penv["P"] = "v"
+	}
+	mk := func() (pipeline.Steps, *pipeline.CommandStep) {
+		c := &pipeline.CommandStep{Command: cmd, Plugins: pipeline.Plugins{{Source: "p#v1"}}}
+		if vpParam("group") != 0 {
+			return pipeline.Steps{&pipeline.GroupStep{Steps: pipeline.Steps{c}}}, c
+		}
+		return pipeline.Steps{c}, c
+	}
+	st1, c1 := mk()
+	vpAssume(SignSteps(ctx, st1, k1, "r", WithEnv(penv)) == nil && c1.Signature != nil)
+	vpAssert(Verify(ctx, c1.Signature, vpKeySetOf(k1), &CommandStepWithInvariants{CommandStep: *c1, RepositoryURL: "r"}, WithEnv(penv)) == nil, "steps signed with the first key verify under it")
+	st2, c2 := mk()
+	err := SignSteps(ctx, st2, k2, "r", WithEnv(penv))
+	vpAssert(err == nil && c2.Signature != nil, "signing identical steps with another key that carries the same key id succeeds")
+	if err != nil || c2.Signature == nil {
+		return
+	}
+	vpAssert(Verify(ctx, c2.Signature, vpKeySetOf(k2), &CommandStepWithInvariants{CommandStep: *c2, RepositoryURL: "r"}, WithEnv(penv)) == nil, "... and they verify under the key that signed them")
+	vpAssert(Verify(ctx, c2.Signature, vpKeySetOf(k1), &CommandStepWithInvariants{CommandStep: *c2, RepositoryURL: "r"}, WithEnv(penv)) != nil, "... and not under the earlier key")
 }
